@@ -1240,7 +1240,8 @@ def rule_hd_emit(cx, rep, port):
     sh = p.func('rbql_csv', 'CSVWriter.set_header')
     fin = p.func('rbql_csv', 'CSVWriter.finish')
     hdr = sh.args.args[1].arg
-    direct = [c for c in walk_no_nested(sh) if isinstance(c, ast.Call) and call_name(c) == 'self.write' and c.args and hdr in names_in(c.args[0])]
+    from ..snippet import inline_single_defs as _isd
+    direct = [c for c in walk_no_nested(sh) if isinstance(c, ast.Call) and call_name(c) == 'self.write' and c.args and (hdr in names_in(c.args[0]) or hdr in names_in(_isd(c.args[0], sh, depth=2, any_value=True)))]
     if direct:
         g = cfgmod.CFG(sh)
         # executed whenever the header is present
@@ -1259,7 +1260,7 @@ def rule_hd_emit(cx, rep, port):
             for q_ in ps_:
                 if q_.kind == 'raise' or not pathsem.consistent(q_, leaf_):
                     continue
-                if not any(isinstance(c_, ast.Call) and call_name(c_) == 'self.write' and c_.args and hdr in names_in(c_.args[0]) for x_ in q_.calls for c_ in ast.walk(x_)):
+                if not any(isinstance(c_, ast.Call) and call_name(c_) == 'self.write' and c_.args and hdr in names_in(c_.args[0]) for x_ in q_.calls for c_ in ast.walk(x_)):      # (path values have locals substituted)
                     skip = True
         rep.decide(not skip, 'header emission', direct[0], 'set_header() writes a copy of the header at once whenever there is one', 'set_header() can return without writing a header that is present')
         return
